@@ -64,7 +64,7 @@ Proof.
   intros Hnd Hc valid.
   assert (Hsc : scorable cand scores = valid).
   { unfold scorable, valid. apply filter_ext_in. intros p Hp.
-    rewrite (proj2 (memZ_In _ _) (Hc p Hp)). reflexivity. }
+    rewrite (proj2 (memZ_In _ _) (Hc p Hp)). destruct (has_score p); reflexivity. }
   set (m := want_len k (length valid)).
   assert (Hin : forall p, In p (firstn m (sort_desc skey valid)) -> In p scores /\ has_score p = true).
   { intros p Hp. apply In_firstn in Hp. apply sort_desc_in in Hp. unfold valid in Hp.
